@@ -1,16 +1,17 @@
 import vp
 
-def J(name, fmt, extra=None, nbases=4, nsym=2, readback=True, timeout=420):
+def J(name, fmt, extra=None, nbases=4, nsym=2, readback=True, timeout=420, partial=False):
     d = {"FORMAT": fmt, "NBASES": nbases, "NSYM": nsym}
     if readback: d["READBACK"] = None
     d.update(extra or {})
-    return vp.Job("fileformats." + name, "fileformats.cpp", d, max_paths=300000, timeout=timeout, min_completed=3)
+    return vp.Job("fileformats." + name, "fileformats.cpp", d, max_paths=300000, timeout=timeout, min_completed=3, allow_partial=partial)
 
 def jobs(tier):
     t = tier == "thorough"
     ns = 3 if t else 2
-    js = [J("hex", 1, nbases=6 if t else 5, nsym=ns), J("srec16", 2, {"SRECSIZE": 0}, nbases=6 if t else 5, nsym=ns), J("srec24", 2, {"SRECSIZE": 1}, nbases=3, nsym=ns),
-          J("srec32", 2, {"SRECSIZE": 2}, nbases=6 if t else 5, nsym=ns), J("bin", 3, nbases=5, nsym=ns), J("wdc", 4, nbases=3, nsym=ns)]
+    to = 1500 if t else 420
+    js = [J("hex", 1, nbases=6 if t else 5, nsym=ns, timeout=to, partial=t), J("srec16", 2, {"SRECSIZE": 0}, nbases=6 if t else 5, nsym=ns, timeout=to, partial=t), J("srec24", 2, {"SRECSIZE": 1}, nbases=3, nsym=ns, timeout=to, partial=t),
+          J("srec32", 2, {"SRECSIZE": 2}, nbases=6 if t else 5, nsym=ns, timeout=to, partial=t), J("bin", 3, nbases=5, nsym=ns, timeout=to, partial=t), J("wdc", 4, nbases=3, nsym=ns, timeout=to, partial=t)]
     return js
 
 def main(tier):
